@@ -14,6 +14,8 @@ pub use bind_context::{BindContext, RsCelFunction, RsCelMacro};
 pub use type_funcs::construct_type;
 #[cfg(feature = "verif_hooks")]
 pub use default_funcs::verif_funcs;
+#[cfg(feature = "verif_hooks")]
+pub use type_funcs::verif_duration_inner;
 
 /// The CelContext is the core context in RsCel. This context contains
 /// Program information as well as the primary entry point for evaluating
